@@ -14,6 +14,7 @@ type unit struct {
 	wrap    bool   // additionally run with the body inside a function (local frame)
 	witness string // slug of the defect this unit demonstrates: always run, never quarantined
 	toplvl  bool   // plain form only (the unit is about a file without namespace)
+	raw     bool   // src is the whole file after "<?php": one form only, "@N@" = unique root namespace
 	src     string
 }
 
@@ -41,9 +42,13 @@ func unitCases() (witnesses, rest []*pcase) {
 			rest = append(rest, c)
 		}
 	}
-	all := append(append([]unit{}, units...), literalUnits()...)
+	all := append(append(append([]unit{}, units...), literalUnits()...), nsResolutionUnits()...)
 	for i, u := range all {
 		body := strings.TrimLeft(u.src, "\n")
+		if u.raw {
+			add(u, "ns", "<?php\n"+strings.ReplaceAll(body, "@N@", fmt.Sprintf("R%d", i)))
+			continue
+		}
 		in := func(ns string) string { return strings.ReplaceAll(body, "@NS@", ns) }
 		if !u.toplvl {
 			add(u, "ns", fmt.Sprintf("<?php\nnamespace U%d;\n%s", i, in(fmt.Sprintf("U%d\\", i))))
